@@ -70,7 +70,7 @@ def run_pipeline(pid, tier, seed, replay, *, driver, model, trace_module, trace_
                     p = vh([src["driver"], "replay", "--in", rp2, "--jobs", 8, "--out", os.path.join(sd, "rep")])
                     st = json.loads(p.stdout.strip().splitlines()[-1]); rep_stats["runs"] += st["runs"]
             r2 = scfg["random"]
-            p = vh([src["driver"], "random", "--seed", seed, "--runs", r2["runs"], "--events", r2["events"], "--jobs", 8, "--out", os.path.join(sd, "rnd")])
+            p = vh([src["driver"], src.get("random_mode", "random"), "--seed", seed, "--runs", r2["runs"], "--events", r2["events"], "--jobs", 8, "--out", os.path.join(sd, "rnd")])
             st = json.loads(p.stdout.strip().splitlines()[-1]); rnd_stats["runs"] += st["runs"]
             f2 = sorted(glob.glob(os.path.join(sd, "*", "trace_*.ndjson")))
             extra_results += validate_traces(src["trace_module"], src["trace_cfg"], f2, pid, jobs=8)
